@@ -146,7 +146,9 @@ func RuleVariants(name string, n *model.Node) []*model.Rule {
 	case "additionalProperties":
 		return []*model.Rule{model.RStr("additionalProperties", "any"), {Name: "additionalProperties", Bool: false}}
 	case "bogus":
-		return []*model.Rule{model.RRaw("bogus", "1")}
+		// unknown names; among them known names padded with blanks INSIDE their quotes (the name
+		// is what stands between the quotes)
+		return []*model.Rule{model.RRaw("bogus", "1"), model.RRaw(`" min "`, "1"), model.RRaw(`"min\t"`, "1"), model.RRaw(`" optional "`, "true"), model.RRaw(`"nullable\u0020"`, "true")}
 	}
 	return nil
 }
